@@ -133,4 +133,36 @@ PROPS = {
         assumptions=['real-timer scenarios: 4 at a time; bound 20 x ElectionTimeout + 500 ms wall clock'],
         timeout={'quick': 900, 'thorough': 7200},
     ),
+    'C03': dict(
+        props_file='Props/C03.v',
+        components=['c03'],
+        comp_names={8: 'leader sequences', 1001: 'cluster churn histories', 1002: 'election races'},
+        rule='leader sequences: a real server booted from an image, put in Leader state (setState + setupLeaderState, no replication goroutines) and driven from one goroutine through dispatchLogs (commands, barriers, no-ops, batches of 1-3, a failing StoreLogs), commitment.match reports of voters and non-voters, the commit processing of leaderLoop with the real FSM goroutine (plain and batching FSM), appendConfigurationEntry + the gate, restoreUserSnapshot (index below/at/above the log, wrong size), verifyLeader; after every op: resolved futures (index, error, response), ordered store/FSM trace and the full node + commitment state are diffed against the model (1500 random sequences in quick, 30000 in thorough); ' + 'cluster histories: churn and election races; monitors: every new leader holds every acknowledged/applied entry, an applied entry a server holds is never replaced or deleted, commit index never on an old-term entry without an own-term entry. Non-trivial = sequence with a commit step / history with leader and ack',
+        assumptions=['cluster histories are sampled schedules'],
+        timeout={'quick': 900, 'thorough': 7200},
+    ),
+    'C08': dict(
+        props_file='Props/C08.v',
+        components=['c08'],
+        comp_names={8: 'leader sequences', 1011: 'barrier behind a slow FSM', 1001: 'cluster churn histories'},
+        rule='leader sequences: a real server booted from an image, put in Leader state (setState + setupLeaderState, no replication goroutines) and driven from one goroutine through dispatchLogs (commands, barriers, no-ops, batches of 1-3, a failing StoreLogs), commitment.match reports of voters and non-voters, the commit processing of leaderLoop with the real FSM goroutine (plain and batching FSM), appendConfigurationEntry + the gate, restoreUserSnapshot (index below/at/above the log, wrong size), verifyLeader; after every op: resolved futures (index, error, response), ordered store/FSM trace and the full node + commitment state are diffed against the model (1500 random sequences in quick, 30000 in thorough); ' + 'cluster histories: Barrier behind a slow FSM (0.2-1.7 ms per Apply, buffered and unbuffered applyCh), churn with concurrent clients; monitors: response = FSM answer for the own payload, acknowledged index above all earlier acks, at most once per FSM and at the acknowledged index, definitely-failed commands never stored, Barrier returns after every earlier command reached the local FSM',
+        assumptions=['payload ids unique per Apply call', 'ErrEnqueueTimeout rests on Go select semantics'],
+        timeout={'quick': 900, 'thorough': 7200},
+    ),
+    'C09': dict(
+        props_file='Props/C09.v',
+        components=['c09'],
+        comp_names={8: 'leader sequences (verifyLeader registration and counters)', 1010: 'VerifyLeader under partitions, lost and held answers'},
+        rule='leader sequences: a real server booted from an image, put in Leader state (setState + setupLeaderState, no replication goroutines) and driven from one goroutine through dispatchLogs (commands, barriers, no-ops, batches of 1-3, a failing StoreLogs), commitment.match reports of voters and non-voters, the commit processing of leaderLoop with the real FSM goroutine (plain and batching FSM), appendConfigurationEntry + the gate, restoreUserSnapshot (index below/at/above the log, wrong size), verifyLeader; after every op: resolved futures (index, error, response), ordered store/FSM trace and the full node + commitment state are diffed against the model (1500 random sequences in quick, 30000 in thorough); ' + 'cluster histories: 3/5 voters + 1-2 non-voters; the leader is cut off from 1..all other voters (link down / answers lost / answers held and released later), optionally after the others elected a new leader; VerifyLeader before and after; monitor: success only if a voter majority answered exchanges handed to the caller inside the call window and sent after the call',
+        assumptions=['the monitor treats an answer handed to the leader up to 60 history events before the call as possibly still in flight inside the replication goroutine'],
+        timeout={'quick': 900, 'thorough': 7200},
+    ),
+    'C20': dict(
+        props_file='Props/C20.v',
+        components=['c20'],
+        comp_names={8: 'leader sequences (restoreUserSnapshot)', 1012: 'Restore racing Apply / AddVoter with lagging followers'},
+        rule='leader sequences: a real server booted from an image, put in Leader state (setState + setupLeaderState, no replication goroutines) and driven from one goroutine through dispatchLogs (commands, barriers, no-ops, batches of 1-3, a failing StoreLogs), commitment.match reports of voters and non-voters, the commit processing of leaderLoop with the real FSM goroutine (plain and batching FSM), appendConfigurationEntry + the gate, restoreUserSnapshot (index below/at/above the log, wrong size), verifyLeader; after every op: resolved futures (index, error, response), ordered store/FSM trace and the full node + commitment state are diffed against the model (1500 random sequences in quick, 30000 in thorough); ' + 'cluster histories: Restore with snapshot index in {0,1,last-1,last,last+1,last+10} while writes are in flight (answers of a follower held), an AddVoter pending, a follower partitioned, gap-tolerant and monotonic stores; monitors: later acknowledged indices above the burned index, aborted calls never applied by a server after it took over the restored state, plus the C02/C04 stream monitors',
+        assumptions=['user snapshot content = two payload ids'],
+        timeout={'quick': 900, 'thorough': 7200},
+    ),
 }
